@@ -33,7 +33,7 @@ type KnownFinding struct {
 	Input      string `json:"input,omitempty"`
 }
 
-var suffixRe = regexp.MustCompile(`(@ret\d+)?(~\d+)?$`)
+var suffixRe = regexp.MustCompile(`(@ret\d+)?(@exit\d+)?(~\d+)?$`)
 
 func baseName(n string) string { return suffixRe.ReplaceAllString(n, "") }
 
